@@ -293,7 +293,7 @@ BATTERIES = {
  'C07': [dict(**{'from': [3.0, -1.0, 0.0, 9.42477796076938, -0.5, 2.0], 'to': [1.0, 1.0, 0.0, -1.5707963267948966, 0.5, 8.5], 'x': [3.5, 0.5, 7.0, 3.9, 12.0, -4.0]}, ctor='new')],
  'C08': [dict(sign=[1, 1, 1, 1, 1, 1], dof=6, search='true'), dict(sign=[1, 1, 1, 1, 1, 1], dof=5, search='true')],
  'C09': [dict(wrapper=w, method=m, euler=[0.3, -0.5, 0.7], shift=[0.1, -0.2, 0.3]) for w in ('tool', 'base', 'frame') for m in ('forward', 'forward_with_joint_poses', 'inverse', 'inverse_continuing', 'inverse_continuing_5dof')],
- 'C10': [dict(clause='tasks', tool=1, base=1, nenv=2), dict(clause='tasks', tool=0, base=1, nenv=1)],
+ 'C10': [dict(clause='tasks', tool=1, base=1, nenv=2), dict(clause='tasks', tool=0, base=1, nenv=1), dict(clause='entry')],
  'C12': [dict(seed=0, n=60)],
  'C11': [dict(clause='entry')], 'C13': [dict(clause='extend')], 'C14': [dict(clause='offsets')], 'C15': [dict(clause='finite_difference')],
  'C16': [dict(driven=d, coupled=c, scaling=sc, method=m) for (d, c, sc) in ((1, 2, 0.7), (2, 1, -0.5), (0, 5, 1.5)) for m in ('forward', 'inverse', 'inverse_continuing_5dof')],
